@@ -12,6 +12,11 @@ CHECKS = {
          "All histories of <= 2 requests over the full 120-request alphabet (SignVote/SignProposal/SignVoteWithoutSave x heights {1,2} x rounds {0,1} x steps x blocks {A,B,nil} x 2 timestamps) plus depth 3 on a reduced alphabet (thorough: depth 3 on the full alphabet, 1.7M histories / 22.7M crash scenarios); for each history a crash at every FS operation boundary inside and between calls, torn last write, and loss of unsynced data; the signer is reloaded with LoadFilePV from the surviving bytes and the remaining requests are issued. Oracle over everything ever released without error across process lifetimes: at most one distinct payload per (height, round, step) modulo timestamp, no release below the maximum released HRS, reload never fails on a file the code wrote, a signature is never visible to the caller before its record is durable.",
          "File-system model: rename/create/remove atomic and durable on return; directory-entry durability without a directory fsync is not modelled. The os/ioutil calls of WriteFileAtomic, LoadFilePV and the rest of priv_validator.go/os.go are redirected to the shim by a generator that re-instruments the CURRENT files on every build and fails loudly if the functions changed shape. One crash per history; sequential requests.",
          "5/C04"),
+ "C08": ("exploration",
+         "bounded-exhaustive input enumeration: every single and pairwise field mutation x signature (r,s,v) boundary product x chain parameter x sender-cache state for every account-based transaction kind; exhaustive wallet x sub-address recognition matrix, key-set spend product and field-binding mutations for confidential transactions (real curve arithmetic)",
+         "Account side: for Transaction (transfer/creation), TokenTransaction, UTXOTransaction with account input (coin/token), confidential inputs with account-paid fee, ContractUpgradeTx and MultiSignAccountTx: sign once with a fixed key, then every field mutation from {+1, zero, other, append byte, structural} singly and in pairs, every (r,s,v) from a 7x7x14 boundary set (0,1,N-1,N,N+1,valid,N-s; v incl. 27/28, 35+2c.., wrap values), verifying chain parameter in {c,c+1,0}, cache states {cold, warmed before mutation, warmed through the real mempool/StoreFrom twin}; oracle: recovered sender differs from the original or an error; high-s/out-of-range refused; transaction hash exact and injective over signatures. Confidential side: 3 wallets x 3 sub-addresses + outsider: outputs recognised/decoded by exactly the destination; 27 key sets x R-key x key-image x ring size {1,3} spends through CheckBasic: only the owner's key set is accepted; every single (thorough: pairwise) mutation of inputs, outputs, token, R-keys, fee, extra, account signature changes the ring-signature message and invalidates the authorisation. 257k cases quick / 5.4M thorough, exhaustive within the bounds.",
+         "Hardness of secp256k1/ed25519 and of the range proof (ideal functionality in the crypto stand-in) is assumed; one recorded known finding (unprotected v=27/28 signatures are chain-agnostic).",
+         "5/C08"),
  "C09": ("model_checking",
          "explicit-state BFS over state-operation sequences on the real StateDB (3 database modes, up to 3 live instances, nested snapshots) vs. deep-copy reference model + untouched-twin root oracle",
          "24 searches per tier (8 alphabets x caching-trie / kv-trie / kv-flat): all sequences over the mutators of the statement (balance, token balance, nonce, code, storage, CreateAccount, Suicide, AddLog, AddRefund) on 2 accounts x 3 tokens x 2 slots interleaved with Snapshot, RevertTo(k-th open), Copy (stay/switch), IntermediateRoot, Commit; full 53-letter alphabet to depth 4, focused alphabets to depth 6-10 (thorough). After every op, on every live instance: all getters equal the model, a throw-away Copy equals its source, and IntermediateRoot/Commit root equal those of an untouched twin that executed only the un-reverted operations.",
